@@ -147,11 +147,12 @@ KANI_UNITS['tsops'] = {
 
 PROPERTIES = {
   'C02': {
-    'verus': ['tripcount', 'algebra', 'foldv', 'dce'],
+    'verus': ['tripcount', 'algebra', 'foldv', 'dce', 'ccpbin'],
     'kani': ['fold', 'mirbin', 'induction'],
     'level': 'proof',
     'scope': 'arithmetic kernels only: constant folding, algebraic merging, operand reordering / comparison flipping, '
-             'induction-variable algebra, guard operators, trip-count closed forms; dead-code elimination keeps every operation that can '
+             'induction-variable algebra, guard operators, trip-count closed forms; the algebraic simplifications of constant propagation (x+0, x*0, x*1, x/1, x%1, x-x, x%x, x/x, folding) equal the '
+             'target result for every valuation; dead-code elimination keeps every operation that can '
              'trap and every call (Binary and Call arms); the other statement-level pass drivers are not covered',
   },
   'C05': {
@@ -194,11 +195,14 @@ PROPERTIES = {
              'every checker-side clause of C06 (types, arity, resolution, visibility, conformance, exhaustiveness) is not covered',
   },
   'C08': {
-    'verus': ['paren'],
+    'verus': ['paren', 'strlit', 'lexer'],
+    'verus_only': {'lexer': ['WrappedLogosLexer::lex_str_lit_opt']},
+    'verus_route': {'lexer': 'literals'},
     'kani': ['prec'],
     'level': 'proof',
-    'scope': 'kernels only: the precedence table used by the formatter against the grammar\'s binding levels, and the '
-             'parenthesis decision for the operands of a binary expression; literals, every other construct, the layout engine, '
+    'scope': 'kernels only: the precedence table used by the formatter against the grammar\'s binding levels; the '
+             'parenthesis decision for the operands of binary and unary expressions; string literals (lexer token shape, parser '
+             'unescaping, printer escaping: the printed literal is the source token); every other construct, the layout engine, '
              'import sorting and re-parsing as such are not covered',
   },
   'C10': {
@@ -257,6 +261,13 @@ STANDING_ASSUMPTIONS = {
     'the induction variable is compared over mathematical integers; the in-range clause makes that equal to the wrapping run',
   ],
   'algebra': ['Verus/Z3 nonlinear arithmetic; vstd specs of i32::wrapping_mul / wrapping_add'],
+  'strlit': ['Verus/Z3; std str::replace for the two literal patterns is modelled by unesc / esc on character sequences (documented '
+             'behaviour: leftmost non-overlapping occurrences); chars().collect_vec() and iter().collect::<String>() keep the characters; '
+             'documents are abstracted to how they were built; the lexer clause is proved on bytes, the parser / printer clauses on chars '
+             '(quote and backslash are ASCII, so the two views agree on them: assumed)'],
+  'ccpbin': ['Verus/Z3; contract of evaluate_bin_op assumed here and proved in units fold / foldv; checked_bind reduced to "binds the name" '
+             '(its panic on re-binding is a precondition: SSA names are bound once); bitwise / shift results uninterpreted; '
+             'R16 moves a match guard into its arm (Verus loses `final` of &mut parameters across guarded arms)'],
   'dce': ['Verus/Z3; PStr opaque with std Hash/Eq obeying the key model; '
           'the enclosing match of optimize_stmt and optimize_stmts (which removes the statements flagged false) are not under contract (R14)'],
   'foldv': ['Verus/Z3; vstd specs of i32::checked_div / checked_rem / wrapping_* (truncating division)'],
